@@ -218,3 +218,13 @@ def seq_digits(s, lo=None, hi=None, top=9):
 
 def digit_of(s, j):
     return s.at(j) - (48 if s.elem == "char" else 0)
+
+
+# ind4(a0, a1, a2, a3)[w] = 1 if w is one of the four values else 0 : the row of an adjacency matrix that belongs to an accessor row (C14)
+ind4 = z3.Function("ind4", I, I, I, I, A)
+
+
+def ind4_axioms():
+    a0, a1, a2, a3, w = z3.Ints("i0_ i1_ i2_ i3_ iw_")
+    return [z3.ForAll([a0, a1, a2, a3, w], ind4(a0, a1, a2, a3)[w] == z3.If(z3.Or(a0 == w, a1 == w, a2 == w, a3 == w), iv(1), iv(0)),
+                      patterns=[ind4(a0, a1, a2, a3)[w]])]
